@@ -2,6 +2,7 @@ package main
 
 import (
 	"os"
+	"strconv"
 	"strings"
 )
 
@@ -18,7 +19,7 @@ func baseProfile(name string) *Profile {
 		FeeW:    []int{3, 3, 2, 1, 1},
 		ScaleW:  []int{5, 2, 2, 1},
 		PassW:   []int{6, 2, 2, 1},
-		GasCutP: 0.06, BatchP: 0.15, DupP: 0.08, TimeoutP: 0.1, SingleTxP: 0.5, EmptyFeeP: 0.04, InitLimitP: 0.35, SimP: 0.12, CrashP: 0.04, ByzPlainP: 0.1, BigPassP: 0.004, GhostTokenP: 0.0015, BigBatchP: 0.04,
+		GasCutP: 0.06, BatchP: 0.15, DupP: 0.08, TimeoutP: 0.1, SingleTxP: 0.5, EmptyFeeP: 0.04, InitLimitP: 0.35, SimP: 0.12, CrashP: 0.04, ByzPlainP: 0.1, BigPassP: 0.004, ModDepositP: 0.01, GhostTokenP: 0.0015, BigBatchP: 0.04,
 		StoreDigests: true,
 		EvidenceRule: "each evaluation is one seeded simulated run: a generated schedule of 25-70 actor events (remote users, relayers, consensus, orbiter authority, downstream admins, dust depositor, byzantine chain, operator) executed against the real application, followed by a drain (faults healed, everything relayed, one probe per route). A run is non-trivial when at least one rule of this property was actually evaluated in it; distinct_nontrivial counts distinct abstract states at packet-delivery instants (paused-protocol set, paused-pair set, paused-action set, limit bucket, number of statistics keys, dust present, environment-health vector, route, receiver encoding).",
 	}
@@ -26,6 +27,12 @@ func baseProfile(name string) *Profile {
 
 func profileFor(name string) *Profile {
 	p := profileFor0(name)
+	if v := os.Getenv("VERIF_MODDEP"); v != "" {
+		// debugging aid: a stress value for the deposits to module addresses
+		if f, err := strconv.ParseFloat(v, 64); err == nil {
+			p.ModDepositP = f
+		}
+	}
 	// debugging aid: report violations of further properties seen in this profile's runs
 	for _, x := range strings.Split(os.Getenv("VERIF_OWN_EXTRA"), ",") {
 		if x != "" {
@@ -105,6 +112,7 @@ func profileFor0(name string) *Profile {
 	case "C14":
 		p.ClassW = map[string]int{"canon": 25, "refuse": 20, "free": 40, "plain": 4, "nearmiss": 4, "exotic": 25, "multierr": 8}
 		p.W["byz"], p.W["envadmin"], p.W["dust"] = 14, 4, 6
+		p.ModDepositP = 0.05
 		p.ScaleW = []int{3, 2, 3, 3}
 		p.BatchP = 0.3
 	case "C16":
